@@ -9,7 +9,7 @@ from .skeletons import skeleton, U7, UN3, KINDS_SMALL, KINDS_MED
 from .mutate import mutate
 
 LEVEL = 'model_checking'
-BUDGET_S = {'quick': 150, 'thorough': 1500}
+BUDGET_S = {'quick': 170, 'thorough': 1800}
 BOUNDS = {
     'quick': 'universe U7; skeleton set A (+B2, B3 shapes named in the property); histories B.M.B.B.B: a committed build, '
              'one symbolic mutation (any kind, any of 8 paths incl. unobserved ones), a rebuild (justification oracle), '
@@ -31,14 +31,14 @@ WITNESSES = {'quick': ['unchanged-rebuild-strict', 'mutation-unobserved-nothing-
 def families(tier):
     mp = ['in/x', 'in', 'in/y', 'o', 'o/d', 'o/d/g', 'o/f', 'o/z']
     q = [
-        {'name': 'A2a', 'params': {'kinds': KINDS_MED, 'mut_paths': mp}, 'weight': 2},
+        {'name': 'A2a', 'params': {'kinds': KINDS_SMALL, 'mut_paths': mp}, 'weight': 2},
         {'name': 'A3', 'params': {'kinds': ['is_file', 'read_m'], 'roles': ['in/x'], 'targets': ['o/d/g'],
                                   'modes': ['ok', 'raise_after'], 'mut_paths': mp}, 'weight': 3},
         {'name': 'A4', 'params': {'kinds': ['is_dir', 'list_dir'], 'roles': ['o'], 'targets': ['o/d/g'],
                                   'modes': ['ok', 'raise_before', 'raise_after'], 'mut_paths': ['in/x', 'o/d', 'o/d/g', 'o/z']}, 'weight': 3},
         {'name': 'A5b', 'params': {'modes': ['ok', 'raise_before'], 'mut_paths': ['in/x', 'o/d/g', 'o/z']}, 'weight': 2},
         {'name': 'A6', 'params': {'kinds': ['is_dir', 'list_dir'], 'mut_paths': ['in/x', 'o/z']}, 'weight': 3},
-        {'name': 'B2', 'params': {'mut_paths': ['o/z'], 'hist': 'BMBB'}, 'weight': 3},
+        {'name': 'B2', 'params': {'mut_paths': [], 'hist': 'BBB'}, 'weight': 3},
         {'name': 'B8', 'params': {'mut_paths': ['in/x', 'in/y', 'o/f']}, 'weight': 2},
         {'name': 'N3', 'params': {'hist': 'BBB', 'universe': UN3, 'kinds': ['is_dir', 'list_dir', 'exists'], 'roles': ['o', 'o/d', 'o/m'], 'mut_paths': []}, 'weight': 3},
     ]
